@@ -94,7 +94,9 @@ func (s *Simple) runCase(tier string, seed int64, idx int, em *Emitter) {
 }
 
 // RunOne executes a single case (used by children that run cases under an external tracer).
-func (s *Simple) RunOne(tier string, seed int64, idx int, em *Emitter) { s.runCase(tier, seed, idx, em) }
+func (s *Simple) RunOne(tier string, seed int64, idx int, em *Emitter) {
+	s.runCase(tier, seed, idx, em)
+}
 
 func (s *Simple) Replay(payload json.RawMessage, em *Emitter) {
 	var r simpleReplay
